@@ -36,11 +36,13 @@ pub struct RichDens {
     pub n_eval: std::rc::Rc<std::cell::Cell<u64>>,
     pub faults: Vec<(u64, FaultKind)>,
     pub n_expand: std::rc::Rc<std::cell::Cell<u64>>,
+    /// only scalar and vector variables of numeric / bool type (what the ndarray backend supports)
+    pub reduced: bool,
 }
 
 impl RichDens {
     pub fn new(faults: Vec<(u64, FaultKind)>) -> Self {
-        RichDens { n_eval: Default::default(), faults, n_expand: Default::default() }
+        RichDens { n_eval: Default::default(), faults, n_expand: Default::default(), reduced: false }
     }
 }
 
@@ -74,8 +76,12 @@ const RICH_VARS: [(&str, ItemType, &[&str]); 10] = [
 ];
 
 impl Storable<RichDens> for RichVec {
-    fn names(_p: &RichDens) -> Vec<&str> {
-        RICH_VARS.iter().map(|v| v.0).collect()
+    fn names(p: &RichDens) -> Vec<&str> {
+        RICH_VARS
+            .iter()
+            .filter(|v| !p.reduced || (v.2.len() <= 1 && v.1 != ItemType::String && v.0 != "e"))
+            .map(|v| v.0)
+            .collect()
     }
     fn item_type(_p: &RichDens, item: &str) -> ItemType {
         RICH_VARS.iter().find(|v| v.0 == item).unwrap().1
@@ -83,8 +89,9 @@ impl Storable<RichDens> for RichVec {
     fn dims<'a>(_p: &'a RichDens, item: &str) -> Vec<&'a str> {
         RICH_VARS.iter().find(|v| v.0 == item).unwrap().2.to_vec()
     }
-    fn get_all<'a>(&'a mut self, _p: &'a RichDens) -> Vec<(&'a str, Option<Value>)> {
-        self.vals.iter().map(|(n, v)| (*n, Some(v.clone()))).collect()
+    fn get_all<'a>(&'a mut self, p: &'a RichDens) -> Vec<(&'a str, Option<Value>)> {
+        let names = Self::names(p);
+        self.vals.iter().filter(|(n, _)| names.contains(n)).map(|(n, v)| (*n, Some(v.clone()))).collect()
     }
 }
 
@@ -266,8 +273,9 @@ fn make_progress(draw: u64, chain: u64, diverging: bool, tuning: bool, step_size
 }
 
 /// rows of one real chain (a warmup + b sampling draws), divergences injected at `div_draws`
-fn make_rows<S: Settings>(settings: &S, chain: u64, n: usize, faults: Vec<(u64, FaultKind)>) -> Result<(Vec<RRow>, Vec<u64>), String> {
-    let dens = RichDens::new(faults);
+fn make_rows<S: Settings>(settings: &S, chain: u64, n: usize, faults: Vec<(u64, FaultKind)>, reduced: bool) -> Result<(Vec<RRow>, Vec<u64>), String> {
+    let mut dens = RichDens::new(faults);
+    dens.reduced = reduced;
     let evals = dens.n_eval.clone();
     let math = CpuMath::new(dens);
     let mut rng = ChaCha8Rng::seed_from_u64(17 + chain);
@@ -488,11 +496,13 @@ pub struct Scenario {
     pub ops: Ops,
     pub div_mask: u32,
     pub chunk: u64,
+    /// variables of every type x shape (false: scalar / vector numeric and bool only)
+    pub rich: bool,
 }
 
 impl Scenario {
     fn name(&self) -> String {
-        format!("{:?}/{:?}/a{}b{}rec{}/chains{}/warmup{}/{:?}/div{:b}/chunk{}", self.backend, self.preset, self.a, self.b, self.recorded, self.chains, self.store_warmup, self.ops, self.div_mask, self.chunk)
+        format!("{:?}/{:?}/a{}b{}rec{}/chains{}/warmup{}/{:?}/div{:b}/chunk{}/rich{}", self.backend, self.preset, self.a, self.b, self.recorded, self.chains, self.store_warmup, self.ops, self.div_mask, self.chunk, self.rich)
     }
 }
 
@@ -508,7 +518,7 @@ fn run_scenario<S: Settings>(sc: &Scenario, settings: &S, p: &mut Partial) {
     // ---- rows: fault-free first (to locate the evaluations of each draw), then with divergences
     let mut rows_per_chain: Vec<Vec<RRow>> = vec![];
     for c in 0..sc.chains {
-        let base = match make_rows(settings, c as u64, n, vec![]) {
+        let base = match make_rows(settings, c as u64, n, vec![], !sc.rich) {
             Ok(r) => r,
             Err(e) => {
                 if e.contains("panicked") {
@@ -522,14 +532,18 @@ fn run_scenario<S: Settings>(sc: &Scenario, settings: &S, p: &mut Partial) {
             .map(|k| (base.1[k] + 1, if k % 2 == 0 { FaultKind::Recoverable } else { FaultKind::HugeDrop }))
             .collect();
         let rows = if faults.is_empty() { base.0 } else {
-            match make_rows(settings, c as u64, n, faults) {
+            match make_rows(settings, c as u64, n, faults, !sc.rich) {
                 Ok(r) => r.0,
                 Err(_) => return,
             }
         };
         rows_per_chain.push(rows);
     }
-    let schema_math = CpuMath::new(RichDens::new(vec![]));
+    let schema_math = CpuMath::new({
+        let mut d = RichDens::new(vec![]);
+        d.reduced = !sc.rich;
+        d
+    });
     let ev: HashMap<String, Option<String>> = settings.stat_event_dims(&schema_math).into_iter().collect();
     let schema = Schema {
         stats: settings.stat_types(&schema_math).into_iter().map(|(n, t)| { let e = ev.get(&n).cloned().flatten().is_some(); (n, t, e) }).collect(),
@@ -711,7 +725,7 @@ fn drive<S: Settings>(sc: &Scenario, settings: &S, math: &CpuMath<RichDens>, sch
     Ok(rb)
 }
 
-mod futures_lite_shim {
+pub mod futures_lite_shim {
     use std::sync::Arc;
     /// copy every object of the in-memory object store into a zarrs MemoryStore
     pub async fn copy_object_store(os: Arc<object_store::memory::InMemory>, mem: Arc<zarrs::storage::store::MemoryStore>) -> Result<(), String> {
@@ -799,6 +813,9 @@ fn compare(sc: &Scenario, schema: &Schema, rows: &[Vec<RRow>], rb: &ReadBack, p:
                 ("u.1".into(), "u".into(), 0), ("u.2".into(), "u".into(), 1), ("u.3".into(), "u".into(), 2),
             ];
             for (col, var, idx) in expect_cols {
+                if !sc.rich && var == "m" {
+                    continue;
+                }
                 let Some(Col::Rows(got)) = rb.get(&(c, false, format!("csv:{col}"))) else {
                     viol("csv-column-missing", col.clone(), p);
                     return;
@@ -845,7 +862,17 @@ fn compare(sc: &Scenario, schema: &Schema, rows: &[Vec<RRow>], rb: &ReadBack, p:
                     };
                     if phase == "warmup" && !sc.store_warmup {
                         // store_warmup = false must omit exactly the warmup draws
-                        let any_written = got.iter().take(subset.len()).zip(&exp).any(|(g, e)| e.as_ref().map(|e| e == g && !e.is_empty()).unwrap_or(false));
+                        // (the arrays are preallocated from the num_tune hint and hold fill
+                        // values, so only a stored value that cannot be a fill value counts)
+                        let fill_like = |c: &Cell| match c {
+                            Cell::F64(b) => f64::from_bits(*b).is_nan() || *b == 0,
+                            Cell::F32(b) => f32::from_bits(*b).is_nan() || *b == 0,
+                            Cell::I64(v) => *v == 0,
+                            Cell::U64(v) => *v == 0,
+                            Cell::Bool(v) => !*v,
+                            Cell::Str(s) => s.is_empty(),
+                        };
+                        let any_written = got.iter().take(subset.len()).zip(&exp).any(|(g, e)| e.as_ref().map(|e| e == g && !e.iter().all(fill_like)).unwrap_or(false));
                         if any_written && !subset.is_empty() {
                             viol("store-warmup-false-ignored", format!("chain {c}: warmup values of {var} were written although store_warmup = false"), p);
                             return;
@@ -953,7 +980,8 @@ pub fn run(tier: Tier, _replay: Option<String>) -> i32 {
                                             if backend == Backend::ZarrSyncFs && !(ops == Ops::Plain && chunk == 2 && div_mask == 0 && recorded == n && a <= 2 && b <= 2) {
                                                 continue;
                                             }
-                                            scs.push(Scenario { preset, backend, a, b, recorded, chains, store_warmup, ops, div_mask, chunk });
+                                            let rich = true;
+                                            scs.push(Scenario { preset, backend, a, b, recorded, chains, store_warmup, ops, div_mask, chunk, rich });
                                         }
                                     }
                                 }
@@ -982,7 +1010,12 @@ pub fn run(tier: Tier, _replay: Option<String>) -> i32 {
         with_settings!(sc.preset, &t, |s| {
             let mut s = s;
             set_chains(&mut s, sc.chains);
-            run_scenario(sc, &s, &mut p)
+            // the Zarr back ends iterate HashMaps (per-instance random hash keys): repeat
+            let reps = if matches!(sc.backend, Backend::ZarrSync | Backend::ZarrAsync) { tier.pick(3usize, 8) } else { 1 };
+            for _ in 0..reps {
+                run_scenario(sc, &s, &mut p);
+                p.count("backend_runs", 1);
+            }
         });
         if i % 499 == 7 {
             p.sample(json!({"scenario": sc.name()}));
